@@ -14,7 +14,8 @@ use crate::read::{
     DebugRngLists, DebugStr, DebugStrOffsets, DebugTuIndex, DebugTypes, DebugTypesUnitHeadersIter,
     DebuggingInformationEntry, EntriesCursor, EntriesRaw, EntriesTree, Error,
     IncompleteLineProgram, IndexSectionId, LocListIter, LocationLists, MacroIter, Range,
-    RangeLists, RawLocListIter, RawRngListIter, Reader, ReaderOffset, ReaderOffsetId, Result,
+    RangeLists, RawLocListIter, RawRngListIter, Reader, ReaderAddress, ReaderOffset, ReaderOffsetId,
+    Result,
     RngListIter, Section, UnitHeader, UnitIndex, UnitIndexSectionIterator, UnitOffset, UnitType,
 };
 use crate::{DebugMacroOffset, constants};
@@ -625,11 +626,17 @@ impl<R: Reader> Dwarf<R> {
                 _ => {}
             }
         }
-        let range = low_pc.and_then(|begin| {
-            let end = size.map(|size| begin + size).or(high_pc);
-            // TODO: perhaps return an error if `end` is `None`
-            end.map(|end| Range { begin, end })
-        });
+        let range = match low_pc {
+            Some(begin) => {
+                let end = match size {
+                    Some(size) => Some(begin.add_sized(size, unit.encoding().address_size)?),
+                    None => high_pc,
+                };
+                // TODO: perhaps return an error if `end` is `None`
+                end.map(|end| Range { begin, end })
+            }
+            None => None,
+        };
         Ok(RangeIter(RangeIterInner::Single(range)))
     }
 
